@@ -235,7 +235,7 @@ fn c10(cx: &RunCtx) -> Verdict {
             }
         }
     }
-    // random: up to 8 actors, counters up to 2^63, near-equal pairs
+    // random: up to 12 actors, counters up to 2^63, near-equal pairs
     let nrand = if cx.thorough { 3_000_000 } else { 600_000 };
     let nrand = (nrand as f64 * cx.scale) as u64;
     let per = nrand / cx.threads as u64 + 1;
@@ -248,12 +248,14 @@ fn c10(cx: &RunCtx) -> Verdict {
                     let mut v = vec![];
                     let mut dist = HashSet::new();
                     let mut smp = vec![];
-                    let all: Vec<u8> = (0..8).collect();
+                    let all: Vec<u8> = (0..12).collect();
                     for it in 0..per {
                         let big = rng.chance(1, 4);
                         let mut mk = |rng: &mut Rng| -> M {
                             let mut m = M::new();
-                            for a in 0..8u8 {
+                            // every fourth pair over 12 actors (wide clocks), the rest over 8
+                            let na = if it % 4 == 0 { 12u8 } else { 8 };
+                            for a in 0..na {
                                 if rng.chance(1, 2) {
                                     let c = if big { rng.next() >> 1 } else { rng.below(5) as u64 };
                                     if c > 0 {
@@ -267,7 +269,7 @@ fn c10(cx: &RunCtx) -> Verdict {
                         let mut y = if rng.chance(1, 3) { x.clone() } else { mk(&mut rng) };
                         if rng.chance(1, 2) {
                             // perturb one actor so that x,y are nearly equal / just ordered
-                            let a = rng.below(8) as u8;
+                            let a = rng.below(12) as u8;
                             let c = g(&y, a);
                             let nc = if rng.chance(1, 2) { c.saturating_add(1) } else { c.saturating_sub(1) };
                             if nc == 0 {
@@ -287,7 +289,7 @@ fn c10(cx: &RunCtx) -> Verdict {
                                 v.push(finding("vclock", "VC", e, seed));
                             }
                         }
-                        let a = rng.below(8) as u8;
+                        let a = rng.below(12) as u8;
                         let c = if rng.chance(1, 2) { g(&x, a).saturating_add(rng.below(3) as u64) } else { rng.below(6) as u64 };
                         if c < u64::MAX - 2 {
                             if let Some(e) = c10_dot(&x, a, c) {
@@ -339,7 +341,7 @@ fn c10(cx: &RunCtx) -> Verdict {
     let ev = json!({
         "evaluations": evals,
         "distinct_nontrivial": distinct.len() as u64 + random_distinct,
-        "rule": "distinct ordered pairs of *different* clocks on which every C10 operation was compared with the pointwise model (systematic 64x64 domain + random pairs up to 8 actors and counters up to 2^63, deduplicated per worker by hash)",
+        "rule": "distinct ordered pairs of *different* clocks on which every C10 operation was compared with the pointwise model (systematic 64x64 domain + random pairs up to 12 actors and counters up to 2^63, deduplicated per worker by hash)",
         "samples": samples,
         "systematic_pairs": 64 * 64, "systematic_triples": triples, "random_pairs": nrand, "harvested_clocks": hv.len(), "harvested_pairs": hp,
         "exhaustive": true,
@@ -1178,4 +1180,181 @@ pub fn serde_types(seed: u64, rounds: u64) -> (u64, u64, Vec<Finding>, Vec<serde
     samples.push(json!({"serde_types": ["List<Option<u32>>", "List<()>", "List<String>", "List<Vec<u8>>", "List<(u8,i64)>", "List<MVReg<u32,u8>>", "List<BTreeMap<u8,u8>>", "Orswot<String>", "GList<String>", "MerkleReg<Vec<u8>>"]}));
     viol.truncate(6);
     (evals, distinct.len() as u64, viol, samples)
+}
+
+// ------------------------------------------------------------------------------------------------
+// C13, long sequences: the replicated-system workloads are limited to 128 ops per history, so lists with hundreds
+// of elements are driven here: one replica grows a GList / List far beyond that, every single edit is compared with
+// a Vec model (read, len, get/position at probe indices, first/last); then a second replica forks, both keep
+// editing, and they exchange state (GList) or ops (List).
+pub fn long_lists(seed: u64, rounds: u64) -> (u64, u64, Vec<Finding>, serde_json::Value) {
+    use crdts::{CmRDT, CvRDT, GList, List};
+    let mut evals = 0u64;
+    let mut viol: Vec<Finding> = vec![];
+    let mut max_len = (0usize, 0usize);
+    // index choice biased to the ends, the back half and the middle
+    fn pick(rng: &mut Rng, len: usize) -> usize {
+        let ix = match rng.below(7) {
+            0 => len,
+            1 => len.saturating_sub(1 + rng.below(4)),
+            2 => len / 2 + rng.below(len / 2 + 1),
+            3 => 0,
+            4 => len * 3 / 4,
+            5 => len / 2 + 1,
+            _ => rng.below(len + 1),
+        };
+        ix.min(len)
+    }
+    for h in 0..rounds {
+        let mut rng = Rng::new(mix(seed, 7700 + h));
+        // ---- GList
+        let target = 140 + rng.below(200);
+        let mut g: GList<u32> = GList::new();
+        let mut model: Vec<u32> = vec![];
+        let mut next = 1u32;
+        let mut edit_g = |g: &mut GList<u32>, model: &mut Vec<u32>, rng: &mut Rng, next: &mut u32, who: &str| -> Option<String> {
+            let len = model.len();
+            let ix = pick(rng, len);
+            let x = *next;
+            *next += 1;
+            let op = g.insert(ix, x);
+            g.apply(op);
+            model.insert(ix, x);
+            let got: Vec<u32> = g.read::<Vec<&u32>>().into_iter().cloned().collect();
+            if got != *model {
+                let at = got.iter().position(|e| *e == x);
+                return Some(format!("GList ({who}) of {len} elements: insert({ix}, {x}) landed at {at:?}"));
+            }
+            if g.len() != model.len() || g.first().map(|i| *i.value()) != model.first().cloned() || g.last().map(|i| *i.value()) != model.last().cloned() {
+                return Some(format!("GList ({who}) of {} elements: len/first/last disagree with read()", model.len()));
+            }
+            for p in [ix, len / 2 + 1, len.saturating_sub(2), pick(rng, len)] {
+                if p < model.len() && g.get(p).map(|i| *i.value()) != Some(model[p]) {
+                    return Some(format!("GList ({who}) of {} elements: get({p}) = {:?}, read()[{p}] = {}", model.len(), g.get(p).map(|i| *i.value()), model[p]));
+                }
+            }
+            None
+        };
+        let mut bad: Option<String> = None;
+        while model.len() < target && bad.is_none() {
+            bad = edit_g(&mut g, &mut model, &mut rng, &mut next, "single replica");
+            evals += 1;
+        }
+        if bad.is_none() {
+            let (mut g2, mut model2) = (g.clone(), model.clone());
+            for _ in 0..12 {
+                if bad.is_none() {
+                    bad = edit_g(&mut g, &mut model, &mut rng, &mut next, "fork a");
+                }
+                if bad.is_none() {
+                    bad = edit_g(&mut g2, &mut model2, &mut rng, &mut next, "fork b");
+                }
+                evals += 2;
+            }
+            if bad.is_none() {
+                let (a0, b0) = (g.clone(), g2.clone());
+                g.merge(b0);
+                g2.merge(a0);
+                let ra: Vec<u32> = g.read::<Vec<&u32>>().into_iter().cloned().collect();
+                let rb: Vec<u32> = g2.read::<Vec<&u32>>().into_iter().cloned().collect();
+                let mut want: Vec<u32> = model.iter().chain(model2.iter()).cloned().collect();
+                want.sort();
+                want.dedup();
+                let mut have = ra.clone();
+                have.sort();
+                evals += 1;
+                if ra != rb || have != want {
+                    bad = Some(format!("GList forks of {} and {} elements: merged reads differ or lose elements ({} vs {} of {})", model.len(), model2.len(), ra.len(), rb.len(), want.len()));
+                } else {
+                    // relative order of each fork is kept
+                    let keep = |r: &Vec<u32>, m: &Vec<u32>| -> bool { r.iter().filter(|e| m.contains(e)).cloned().collect::<Vec<u32>>() == *m };
+                    if !keep(&ra, &model) || !keep(&ra, &model2) {
+                        bad = Some("GList merge reorders the elements of a fork".into());
+                    }
+                }
+            }
+        }
+        max_len.0 = max_len.0.max(model.len());
+        if let Some(b) = bad {
+            if viol.len() < 5 {
+                viol.push(finding("seq_long", "GL", b, seed));
+            }
+        }
+        // ---- List
+        let target = 70 + rng.below(150);
+        let mut l: List<u32, u8> = List::new();
+        let mut model: Vec<u32> = vec![];
+        let mut edit_l = |l: &mut List<u32, u8>, model: &mut Vec<u32>, rng: &mut Rng, next: &mut u32, actor: u8, who: &str| -> (Option<String>, Option<crdts::list::Op<u32, u8>>) {
+            let len = model.len();
+            if len > 3 && rng.chance(1, 6) {
+                let ix = pick(rng, len - 1).min(len - 1);
+                let Some(op) = l.delete_index(ix, actor) else { return (Some(format!("List ({who}) of {len}: delete_index({ix}) declined")), None) };
+                l.apply(op.clone());
+                let e = model.remove(ix);
+                let got: Vec<u32> = l.read::<Vec<&u32>>().into_iter().cloned().collect();
+                if got != *model {
+                    return (Some(format!("List ({who}) of {len} elements: delete_index({ix}) should remove {e}; Vec model and read() differ")), None);
+                }
+                return (None, Some(op));
+            }
+            let ix = pick(rng, len);
+            let x = *next;
+            *next += 1;
+            let op = if ix == len && rng.chance(1, 2) { l.append(x, actor) } else { l.insert_index(ix, x, actor) };
+            l.apply(op.clone());
+            model.insert(ix, x);
+            let got: Vec<u32> = l.read::<Vec<&u32>>().into_iter().cloned().collect();
+            if got != *model {
+                let at = got.iter().position(|e| *e == x);
+                return (Some(format!("List ({who}) of {len} elements: insert_index({ix}, {x}) landed at {at:?}")), None);
+            }
+            if l.len() != model.len() || l.position(ix) != Some(&x) || l.first() != model.first() || l.last() != model.last() {
+                return (Some(format!("List ({who}) of {} elements: len/position/first/last disagree with read()", model.len())), None);
+            }
+            (None, Some(op))
+        };
+        let mut bad: Option<String> = None;
+        while model.len() < target && bad.is_none() {
+            bad = edit_l(&mut l, &mut model, &mut rng, &mut next, 1, "single replica").0;
+            evals += 1;
+        }
+        if bad.is_none() {
+            let (mut l2, mut model2) = (l.clone(), model.clone());
+            let (mut ops_a, mut ops_b) = (vec![], vec![]);
+            for _ in 0..12 {
+                if bad.is_none() {
+                    let (b, op) = edit_l(&mut l, &mut model, &mut rng, &mut next, 1, "fork a");
+                    bad = b;
+                    ops_a.extend(op);
+                }
+                if bad.is_none() {
+                    let (b, op) = edit_l(&mut l2, &mut model2, &mut rng, &mut next, 2, "fork b");
+                    bad = b;
+                    ops_b.extend(op);
+                }
+                evals += 2;
+            }
+            if bad.is_none() {
+                for op in ops_b {
+                    l.apply(op);
+                }
+                for op in ops_a {
+                    l2.apply(op);
+                }
+                evals += 1;
+                let ra: Vec<u32> = l.read::<Vec<&u32>>().into_iter().cloned().collect();
+                let rb: Vec<u32> = l2.read::<Vec<&u32>>().into_iter().cloned().collect();
+                if ra != rb {
+                    bad = Some(format!("List forks of {} and {} elements read differently after exchanging their ops", model.len(), model2.len()));
+                }
+            }
+        }
+        max_len.1 = max_len.1.max(model.len());
+        if let Some(b) = bad {
+            if viol.len() < 5 {
+                viol.push(finding("seq_long", "LI", b, seed));
+            }
+        }
+    }
+    (evals, evals, viol, serde_json::json!({"rounds": rounds, "longest_glist": max_len.0, "longest_list": max_len.1}))
 }
